@@ -56,9 +56,14 @@ type c15Case struct {
 	Strict bool     `json:"required"` // prometheus{ required = ... }
 	// load-shape cases (c15_burst.go): target burst:<endpoint>
 	Burst *c15BurstSpec `json:"burst,omitempty"`
+	// fault sequences on one group (c15_seq.go): target seq:<family>; Modes = the modes of the first step
+	Seq *c15SeqSpec `json:"seq,omitempty"`
 }
 
 func (c c15Case) key() string {
+	if c.Seq != nil {
+		return fmt.Sprintf("%s|required=%v|%s", c.Target, c.Strict, c.Seq.String())
+	}
 	if c.Burst != nil {
 		return fmt.Sprintf("%s|%s|required=%v|%s", strings.Join(c.Modes, ","), c.Target, c.Strict, c.Burst.String())
 	}
@@ -296,6 +301,9 @@ type c15Verdict struct {
 }
 
 func c15Files(o c15Obs) map[string][]byte {
+	if o.Case.Seq != nil {
+		return c15SeqFiles(o)
+	}
 	b, _ := json.MarshalIndent(o, "", " ")
 	if o.Case.Burst != nil {
 		return map[string][]byte{
@@ -327,6 +335,10 @@ func c15Judge(o c15Obs) (v c15Verdict) {
 	cs := o.Case
 	if cs.Burst != nil {
 		v, _ = c15JudgeBurst(o)
+		return v
+	}
+	if cs.Seq != nil {
+		v, _ = c15JudgeSeq(o)
 		return v
 	}
 	if o.SetupErr != "" {
@@ -673,6 +685,8 @@ func c15Cases(c *core.Ctx) []c15Case {
 	// the load-shape cases first: each takes a few seconds, mostly asleep, and
 	// overlaps with the fault table that way
 	cases := c15BurstCases(c)
+	// then the fault sequences on one group: those with a timeout step sleep 1.1 s per timeout
+	cases = append(cases, c15SeqCases(c)...)
 	for ai, modes := range c15Assignments(c) {
 		for ei, ep := range c15Endpoints {
 			cases = append(cases, c15Case{Modes: modes, Target: "api:" + ep, Strict: (ai+ei)%2 == 1})
@@ -923,6 +937,10 @@ func c15AccountObs(run *core.Run, o c15Obs) {
 		c15AccountBurst(run, o)
 		return
 	}
+	if cs.Seq != nil {
+		c15AccountSeq(run, o)
+		return
+	}
 	v := c15Judge(o)
 	if v.Inconc != "" {
 		run.Inconclusive(v.Inconc)
@@ -1097,9 +1115,15 @@ func runC15(c *core.Ctx) int {
 		c15Account(c, run, b, workers, 0)
 	}
 	// samples: a few executions as observed
-	shown, bursts := 0, 0
+	shown, bursts, seqs := 0, 0, 0
 	for _, b := range results {
 		for _, o := range b.Obs {
+			if o != nil && o.Case.Seq != nil && o.Seq != nil && seqs < 2 && len(o.Seq.Steps) == len(o.Case.Seq.Steps) {
+				if _, f := c15JudgeSeq(*o); f.Recoveries > 0 && f.StoppedAtStep < 0 {
+					run.Sample(c15SeqSample(*o))
+					seqs++
+				}
+			}
 			if o != nil && o.Case.Burst != nil && o.Burst != nil && bursts < 2 && len(o.Case.Modes) > 1 {
 				run.Sample(c15BurstSample(*o))
 				bursts++
@@ -1108,7 +1132,7 @@ func runC15(c *core.Ctx) int {
 	}
 	for _, b := range results {
 		for _, o := range b.Obs {
-			if o == nil || shown >= 6 || o.Case.Burst != nil {
+			if o == nil || shown >= 6 || o.Case.Burst != nil || o.Case.Seq != nil {
 				continue
 			}
 			if len(o.Case.Modes) >= 2 && o.Case.Modes[0] != "healthy" && (shown%2 == 0) == strings.HasPrefix(o.Case.Target, "api:") {
@@ -1126,6 +1150,13 @@ func runC15(c *core.Ctx) int {
 	run.Extra("modes", append(append([]string{}, c15Modes...), c15BodyModes...))
 	run.Extra("upstream_assignments_with_a_2xx_body_mode", len(c15BodyAssignments(c)))
 	run.Extra("burst_cases_planned", len(c15BurstCases(c)))
+	seqPlanned, seqStepsPlanned := 0, 0
+	for _, sc := range c15SeqCases(c) {
+		seqPlanned++
+		seqStepsPlanned += len(sc.Seq.Steps)
+	}
+	run.Extra("seq_cases_planned", seqPlanned)
+	run.Extra("seq_steps_planned", seqStepsPlanned)
 	run.Extra("checks", c15CheckNames())
 	run.Extra("exhaustive", !c.Quick())
 	run.Extra("children", children)
@@ -1133,9 +1164,10 @@ func runC15(c *core.Ctx) int {
 	run.Assume("fault classes: healthy=OK; refused/timeout/HTTP 500/JSON server_error(503)=UNAVAILABLE; bad_data(400)/execution(422)=QUERY-ERROR; 404 on query endpoints=QUERY-ERROR; 404 on config/flags/metadata and a truncated 200 body=DON'T-CARE for continue-or-stop (the statement does not class them)")
 	run.Assume("2xx-body modes: the error object of a bad_data / execution error delivered with HTTP 200 = QUERY-ERROR (the server blames the query, whatever the status line says); a complete 200 whose body is not JSON = DON'T-CARE, like a truncated body")
 	run.Assume("load shapes: a timeout pint reports for a request keeps one of the `concurrency` workers of that upstream busy for at least the configured `timeout`; k such timeouts inside a burst that took less than ceil(k/concurrency) x timeout from before the first call to after the last return (one monotonic clock) mean the timeout ran while requests waited inside pint. Timeouts that fit into the elapsed time make the case inconclusive")
+	run.Assume("fault sequences: every request on a group with a history is held to the same fault table as a request on a fresh group, with the fault modes in force during that request (the statement speaks about each request and quantifies over fault sequences). The only thing pint may carry over is its result cache: an upstream that has answered config / flags successfully earlier in the sequence counts as reachable for that endpoint from then on and as not observable (it answers without being contacted). The 404 mode, which switches an API off for the rest of the process, is not used in sequences; every other request of a sequence has a key of its own and cannot be cached")
 	run.Assume("a closed port cannot count requests and a timeout-mode server may be abandoned before its handler runs: for these two only positive evidence (a counted request, or pint logged an error for that URI) is used")
 	run.Assume("pint's client timeout is 100ms (+1s added by pint) when a timeout-mode upstream is configured, 20s otherwise; an execution in which pint logs a client-side timeout for an upstream that is not in timeout mode is inconclusive")
 	return run.Finish("fault_enumeration",
-		"fault table over the real promapi.FailoverGroup built by config.Load + PrometheusGenerator from prometheus{uri, failover, required}: every assignment of 9 fault modes to 1 and 2 upstreams (+ all 729 assignments to 3 upstreams in thorough, a seed-chosen 73 in quick) x 6 API calls (query, query_range one slice, query_range three slices, config, flags, metadata) x 10 real online checks (required on/off for total outages); plus the assignments that contain a 2xx-body mode (query error object in a 200, non-JSON 200): all with 1 and 2 upstreams over the 12 modes, 3 upstreams all in thorough / 16 in quick, with a rotating third of the single checks in quick; plus load shapes: bursts of 26..64 distinct query / query_range / metadata requests and query/cost checks started at once on a group whose first reachable upstream is healthy but throttled (latency x concurrency 1..4, or pint's rateLimit), so that most of the burst waits inside pint longer than timeout+1s - every request must still be answered by that upstream (elapsed-time inequality, see assumptions). Oracle: reference automaton over per-upstream request counts of the fault servers, returned result (token + URI of the answering upstream) or error (classification, server message) and the problems of the check (summary, severity). All executions run 64-wide in -race children; a race report is a violation. Non-trivial = distinct (assignment, target, required) whose FIRST upstream is not healthy.",
+		"fault table over the real promapi.FailoverGroup built by config.Load + PrometheusGenerator from prometheus{uri, failover, required}: every assignment of 9 fault modes to 1 and 2 upstreams (+ all 729 assignments to 3 upstreams in thorough, a seed-chosen 73 in quick) x 6 API calls (query, query_range one slice, query_range three slices, config, flags, metadata) x 10 real online checks (required on/off for total outages); plus the assignments that contain a 2xx-body mode (query error object in a 200, non-JSON 200): all with 1 and 2 upstreams over the 12 modes, 3 upstreams all in thorough / 16 in quick, with a rotating third of the single checks in quick; plus load shapes: bursts of 26..64 distinct query / query_range / metadata requests and query/cost checks started at once on a group whose first reachable upstream is healthy but throttled (latency x concurrency 1..4, or pint's rateLimit), so that most of the burst waits inside pint longer than timeout+1s - every request must still be answered by that upstream (elapsed-time inequality, see assumptions); plus fault sequences: ONE group of 2..3 upstreams whose upstreams change their fault mode between 2..7 successive uncached requests (same URIs throughout; outage-and-recovery of upstream 0 / of upstreams 0 and 1 for each of the 4 unavailable modes x each endpoint, a mixed-endpoint and a final-online-check variant; flapping; random walks over 10 modes), each request judged by the same automaton with the modes in force during it. Oracle: reference automaton over per-upstream request counts of the fault servers, returned result (token + URI of the answering upstream) or error (classification, server message) and the problems of the check (summary, severity). All executions run 64-wide in -race children; a race report is a violation. Non-trivial = distinct (assignment, target, required) whose FIRST upstream is not healthy.",
 		core.Floors{MinEvaluations: int64(len(cases)), MinNontrivial: c.N(1500, 10000), MaxInconclusiveFrac: 0.02})
 }
